@@ -382,6 +382,7 @@ pub fn gen_c17(seed: u64, tier: Tier) -> CaseSet {
         (vec![(1 << 54) - 1, 1], Strat::Fa1Part(64)),
         (vec![(1 << 54) - 1, 1], Strat::Fa2(64)),
         (vec![1 << 53, (1 << 53) - 1, (1 << 53) - 1, (1 << 53) - 1, (1 << 53) - 1], Strat::Fa2(25)),
+        (vec![(1 << 53) + 1, (1 << 53) + 1, (1 << 53) + 1], Strat::Fa2(3)),
         (vec![(1 << 62) - 1, 1 << 62], Strat::Fa1Stake(64)),
         (vec![1 << 62, 1 << 62], Strat::Fa1Part(64)),
         (vec![1 << 63, 1 << 63], Strat::Stake(4)),
@@ -453,7 +454,9 @@ pub fn gen_c17(seed: u64, tier: Tier) -> CaseSet {
         let mk = || catch_unwind(AssertUnwindSafe(|| build(st, fac.infos(&p.stakes)))).ok();
         let mut b1 = mk();
         let mut b2 = mk();
-        let ctor_class = match (&b1, &b2) { (None, _) => "panic", (Some(_), None) => "second-instance-panic", _ => "ok" };
+        // the bins are a function of the validator set (fixed-seed shuffle): both instances must have the same
+        let bins_equal = match (&b1, &b2) { (Some(x), Some(y)) => x.bins() == y.bins(), _ => true };
+        let ctor_class = match (&b1, &b2) { (None, _) => "panic", (Some(_), None) => "second-instance-panic", _ => if bins_equal { "ok" } else { "bins-differ" } };
         *by_class.entry(format!("{}:ctor:{}", st.name(), ctor_class)).or_default() += 1;
         sigs.push((cid, 0, format!("{}:ctor:{}", st.name(), ctor_class)));
         stats.evaluations += 1;
@@ -484,15 +487,15 @@ pub fn gen_c17(seed: u64, tier: Tier) -> CaseSet {
                 if b1.is_none() || b2.is_none() { break; }
             }
         }
-        let txt = format!("(mkC17 {} {} {} {} {} {})", cf::n(cid), cf::list(&p.stakes.iter().map(|s| cf::n(*s)).collect::<Vec<_>>()), st.coq(), ctor_txt,
-            cf::b(b1.is_some() && ctor_class == "second-instance-panic"), cf::list(&draws_txt));
+        let txt = format!("(mkC17 {} {} {} {} {} {} {})", cf::n(cid), cf::list(&p.stakes.iter().map(|s| cf::n(*s)).collect::<Vec<_>>()), st.coq(), ctor_txt,
+            cf::b(b1.is_some() && ctor_class == "second-instance-panic"), cf::b(bins_equal), cf::list(&draws_txt));
         let key = format!("{:?}|{:?}", p.stakes, st);
         if seen.insert(key) && !draws_txt.is_empty() { stats.distinct_nontrivial += 1; }
         if stats.samples.len() < 3 && cid % 37 == 5 { stats.samples.push(txt.chars().take(500).collect()); }
         descr.push(format!("case {}: {} k={} on {} validators ({}), constructor {}", cid, st.name(), st.k(), p.stakes.len(), p.fam, ctor_class));
         cases.push(txt);
     }
-    stats.rule = "pinned boundary configurations (49 equal stakes with k = 49, 4 x stake 1 in 3 bins, 5 / 100 equal validators under FA1-partition with 64 seats, 2 equal validators under FA2 with k = 1, 2, 3, TurbineSampler with 1, 2, 3 validators and fanout 0, stakes beyond 2^53 and totals of 2^63 / 2^64, decay at and beyond its capacity, constant random words) plus a seeded sweep: n in {1,2,3,4,5,7,10,33,49,64,65,100,200,1000,2000} (thorough: every n <= 64 as well), stake families equal / small integers / heavy-tailed / one dominant validator / stakes on and one unit around every 1/k boundary / lamport scale / big-plus-dust, k in {1,2,3,32,49,64,200}, all nine strategies; every configuration is constructed twice independently and each instance samples from the same scripted random source (fair xorshift32 words behind boundary prefixes: runs of 0, of 2^32-1, mixed extremes); non-trivial = constructor succeeded and at least one committee was drawn; distinct by (stakes, strategy)".into();
+    stats.rule = "pinned boundary configurations (49 equal stakes with k = 49, 4 x stake 1 in 3 bins, 5 / 100 equal validators under FA1-partition with 64 seats, 2 equal validators under FA2 with k = 1, 2, 3, TurbineSampler with 1, 2, 3 validators and fanout 0, stakes beyond 2^53 and totals of 2^63 / 2^64, decay at and beyond its capacity, constant random words) plus a seeded sweep: n in {1,2,3,4,5,7,10,33,49,64,65,100,200,1000,2000} (thorough: every n <= 64 as well), stake families equal / small integers / heavy-tailed / one dominant validator / stakes on and one unit around every 1/k boundary / lamport scale / big-plus-dust, k in {1,2,3,32,49,64,200}, all nine strategies; every configuration is constructed twice independently (constructor outcome and bins must coincide and equal the model's) and each instance samples from the same scripted random source (fair xorshift32 words behind boundary prefixes: runs of 0, of 2^32-1, mixed extremes); non-trivial = constructor succeeded and at least one committee was drawn; distinct by (stakes, strategy)".into();
     let fmt = |m: HashMap<&'static str, u64>| { let mut v: Vec<_> = m.into_iter().collect(); v.sort(); v.iter().map(|(k, c)| format!("{}={}", k, c)).collect::<Vec<_>>().join(", ") };
     stats.distribution.push(("strategies".into(), fmt(by_strat)));
     stats.distribution.push(("stake_families".into(), fmt(by_fam)));
